@@ -12,7 +12,12 @@ from ..ref import UNSPEC, kleene
 
 LEVEL = "exploration"
 
-LEAVES = [("T", "true", "T"), ("F", "false", "F")] + [(f"E[{n}]", e, "E") for n, e in gen.ERROR_LEAVES] + [("N[1]", "1", ("N", "1")), ('N["s"]', '"s"', ("N", "s"))]
+LEAVES = [("T", "true", "T"), ("F", "false", "F")] + [(f"E[{n}]", e, "E") for n, e in gen.ERROR_LEAVES] + [("N[1]", "1", ("N", "1")), ('N["s"]', '"s"', ("N", "s"))] + [
+    # non-boolean values that Python calls falsy
+    ("N[0]", "0", ("N", "0")), ('N[""]', '""', ("N", "")),
+    # boolean operands that are a field selected from a parenthesised conditional / logical / macro expression
+    ("T[sel-cond]", '(true ? {"ok": true} : {"ok": false}).ok', "T"), ("F[sel-or]", '(false || false ? {"ok": true} : {"ok": false}).ok', "F"),
+    ("T[sel-macro]", '[{"ok": true}].map(m, m)[0].ok', "T"), ("E[sel-cond]", '(true ? {"ok": true} : {"ok": false}).nope', "E")]
 REDUCED = [l for l in LEAVES if l[0] in ("T", "F", "E[ZeroDivisionError]", "N[1]")]
 
 
@@ -24,7 +29,7 @@ def text(t):
     k = t[0]
     if k == "leaf":
         s = t[2]
-        return s if s in ("true", "false", "1", '"s"', "nope") else f"({s})"
+        return s if s in ("true", "false", "1", '"s"', "nope", "0", '""') else f"({s})"
     if k == "not":
         return "!" + ptext(t[1])
     if k == "and":
@@ -93,7 +98,7 @@ def abstract(o):
     if o[0] == "V":
         if o[1] == "bool":
             return "T" if o[2] else "F"
-        tag = {("int", 1): "1", ("string", "s"): "s"}.get((o[1], o[2]), f"{o[1]}:{o[2]!r}")
+        tag = {("int", 1): "1", ("string", "s"): "s", ("int", 0): "0", ("string", ""): ""}.get((o[1], o[2]), f"{o[1]}:{o[2]!r}")
         return ("N", tag)
     return ("X",) + tuple(o[1:])
 
@@ -174,6 +179,9 @@ FAMILIES = [
     ("[true, false][x]", {"T": "0", "F": "1", "E": "5"}),
     ("x == 1 ? true : (x == 2 ? false : 1 / 0 > 0)", {"T": "1", "F": "2", "E": "3"}),
 ]
+# element outcomes that are not boolean: Z a value Python calls falsy, N one it calls truthy (x itself is the predicate)
+NB_FAMILY = ("x == 1 ? dyn(true) : (x == 2 ? dyn(false) : (x == 3 ? dyn(1 / 0 > 0) : (x == 4 ? dyn(0) : dyn(7))))", {"T": "1", "F": "2", "E": "3", "Z": "4", "N": "5"})
+NB_ABS = {"T": "T", "F": "F", "E": "E", "Z": ("N", "0"), "N": ("N", "int:7")}
 
 
 def macro_shard(task):
@@ -199,6 +207,31 @@ def macro_shard(task):
                         part.violation("wrong-outcome", f"macro{rk}:{macro}:family{fam}:{shape_cls}:expected={exp}:got={g}", {"expr": e, "path": f"expr{rk}"},
                                        f"runner {rk}: {e!r}: expected {exp}, got {got}")
     part.space(f"macro-lists:{rk}", sum(3 ** k for k in range(maxlen + 1)) * len(FAMILIES) * 2, n)
+    # lists that also hold non-boolean outcomes: a deciding element still decides; otherwise the property is silent
+    pred, enc = NB_FAMILY
+    m = 0
+    for k in range(0, maxlen + 1):
+        for seq in itertools.product("TFEZN", repeat=k):
+            if not (set(seq) & {"Z", "N"}):
+                continue
+            lst = "[" + ", ".join(enc[s] for s in seq) + "]"
+            for macro, fold in (("all", kleene.fold_all), ("exists", kleene.fold_exists)):
+                e = f"{lst}.{macro}(x, {pred})"
+                exp = fold([NB_ABS[s] for s in seq])
+                m += 1
+                if exp is UNSPEC:
+                    part.case(nontrivial=False)
+                    part.outcome("macro-nonbool:UNSPEC")
+                    continue
+                got = abstract(celrun.evaluate(rk, e))
+                part.case()
+                part.outcome("macro-nonbool:" + exp)
+                if got != exp:
+                    g = got if isinstance(got, str) else ":".join(map(str, got))
+                    first = next(s for s in seq if s in "ZN")
+                    part.violation("wrong-outcome", f"macro{rk}:{macro}:non-boolean-element:{'falsy' if first == 'Z' else 'truthy'}-first:expected={exp}:got={g}", {"expr": e, "path": f"expr{rk}"},
+                                   f"runner {rk}: {e!r}: expected {exp}, got {got}")
+    part.space(f"macro-lists-nonbool:{rk}", sum(5 ** k - 3 ** k for k in range(maxlen + 1)) * 2, m)
     return part
 
 
@@ -244,9 +277,9 @@ def run(ctx):
     ctx.part.sample({"leaves": [(n, e) for n, e, _a in LEAVES]})
     ctx.part.sample({"examples": [text(ts[i]) for i in (20, 500, len(ts) // 2, len(ts) - 1)]})
     ctx.part.sample({"macro_families": [p for p, _e in FAMILIES]})
-    ctx.rule = ("every term over {!, &&, ||, ?:} with <= 2 operator levels: level 1 over 16 leaves (true, false, one error leaf per failing mechanism x12, two non-boolean values), "
+    ctx.rule = ("every term over {!, &&, ||, ?:} with <= 2 operator levels: level 1 over 22 leaves (true, false, one error leaf per failing mechanism x12, four non-boolean values incl. 0 and "", four operands selected as a field of a parenthesised conditional/logical/macro), "
                 "level 2 over level-<=1 terms on the reduced leaf set {T, F, E, N}" + (" including all ternary roots" if ctx.thorough else " (ternary roots with a reduced branch set)") +
-                "; every {T,F,E} list of length <= " + ("5" if ctx.thorough else "4") + " under four predicate families for all()/exists(); the swap differential on every pair; each under both runners, "
+                "; every {T,F,E} list of length <= " + ("5" if ctx.thorough else "4") + " under four predicate families for all()/exists(), and every list over {T,F,E,falsy non-boolean,truthy non-boolean} of that length holding a non-boolean; the swap differential on every pair; each under both runners, "
                 "level 1 also through celtypes.logical_*; a case whose reference outcome is UNSPEC (e.g. true && 1, !1) is counted but not compared")
     ctx.assumptions = ["nesting deeper than two operator levels is not explored", "host-function error leaves are C14's"]
 
